@@ -76,6 +76,12 @@ Section Pres.
     destruct (find_sess s l) as [se|] eqn:E; cbn; [|exact HC0]. apply HSC. eapply Forall_find; eauto.
   Qed.
 
+  Lemma src_PC cs s : Forall (fun p => PC (fst (snd p)) (snd (snd p))) cs -> PC (fst (src cs s)) (snd (src cs s)).
+  Proof.
+    intros H. unfold src. destruct (find _ cs) as [p|] eqn:E; [|exact HC0].
+    apply find_some in E. rewrite Forall_forall in H. apply H. tauto.
+  Qed.
+
   Record Inv (x : ms) : Prop := mkInv {
     i_sess : Forall PS (x_sess x);
     i_files : Forall PS (x_files x);
@@ -160,15 +166,16 @@ Section Pres.
         apply Inv_set_files; [apply Forall_filter'|]. apply Inv_set_sess; [apply Forall_filter'|exact Hz].
   Qed.
 
-  Lemma Inv_interim_one cin cout fe dn se x :
-    PC cin cout ->
+  Lemma Inv_interim_one cs fe dn se x :
+    Forall (fun p => PC (fst (snd p)) (snd (snd p))) cs ->
     (forall h a b, PS h -> PC a b -> PQ (mkQ ST_INTERIM (s_id h) (s_ident h) a b 0) /\
                        PS (mkS (s_id h) (s_ident h) (s_pend h) (s_cause h) a b)) ->
-    PS se -> Inv x -> InvR (interim_one cin cout fe dn se x).
+    PS se -> Inv x -> InvR (interim_one cs fe dn se x).
   Proof.
-    intros Hcc Hn Hse Hx. unfold interim_one. apply Inv_ctick.
-    pose proof (fetch_PC fe (s_id se) cin cout (x_sess x) Hcc (i_sess _ Hx)) as Hfc.
-    set (fc := fetch_ctr fe (s_id se) cin cout (x_sess x)) in *.
+    intros Hcs Hn Hse Hx. unfold interim_one. apply Inv_ctick.
+    pose proof (src_PC cs (s_id se) Hcs) as Hcc.
+    pose proof (fetch_PC fe (s_id se) _ _ (x_sess x) Hcc (i_sess _ Hx)) as Hfc.
+    set (fc := fetch_ctr fe (s_id se) _ _ (x_sess x)) in *.
     assert (Hs : Inv (send (mkQ ST_INTERIM (s_id se) (s_ident se) (fst fc) (snd fc) 0)
                            (acked dn (mkQ ST_INTERIM (s_id se) (s_ident se) (fst fc) (snd fc) 0)) x))
       by (apply Inv_send; [apply Hn; assumption|exact Hx]).
@@ -177,11 +184,11 @@ Section Pres.
     intros h Hh. cbn. destruct (s_id h =? s_id se); [apply Hn; assumption|exact Hh].
   Qed.
 
-  Lemma Inv_do_interim cin cout fe dn order x :
-    PC cin cout ->
+  Lemma Inv_do_interim cs fe dn order x :
+    Forall (fun p => PC (fst (snd p)) (snd (snd p))) cs ->
     (forall h a b, PS h -> PC a b -> PQ (mkQ ST_INTERIM (s_id h) (s_ident h) a b 0) /\
                        PS (mkS (s_id h) (s_ident h) (s_pend h) (s_cause h) a b)) ->
-    Inv x -> InvR (do_interim cin cout fe dn order x).
+    Inv x -> InvR (do_interim cs fe dn order x).
   Proof.
     intros Hcc Hn Hx. unfold do_interim.
     assert (HF : Forall PS (pick s_id order (filter (fun h => negb (s_pend h)) (x_sess x))))
@@ -222,16 +229,16 @@ Section Pres.
   Lemma Inv_fold_enq qs : forall x, Forall PQ qs -> Inv x -> Inv (fold_left (fun y q => enqueue q y) qs x).
   Proof. induction qs; intros x H Hx; cbn; [exact Hx|]. inversion H; subst. apply IHqs; auto using Inv_enqueue. Qed.
 
-  Lemma Inv_do_graceful cin cout fe dn qorder g x :
-    PC cin cout ->
+  Lemma Inv_do_graceful cs fe dn qorder g x :
+    Forall (fun p => PC (fst (snd p)) (snd (snd p))) cs ->
     (forall h a b, PS h -> PC a b -> PQ (mkQ ST_STOP (s_id h) (s_ident h) a b CAUSE_NAS_REBOOT)) ->
-    Inv x -> InvR (do_graceful cin cout fe dn qorder g x).
+    Inv x -> InvR (do_graceful cs fe dn qorder g x).
   Proof.
-    intros Hcc Hn Hx. unfold do_graceful.
-    assert (HQ : Forall PQ (map (drain_req cin cout fe (x_sess x)) (x_sess x))).
+    intros Hcs Hn Hx. unfold do_graceful.
+    assert (HQ : Forall PQ (map (drain_req cs fe (x_sess x)) (x_sess x))).
     { apply Forall_map. eapply Forall_impl; [|apply (i_sess _ Hx)]. intros h Hh. unfold drain_req.
-      apply Hn; [exact Hh|]. apply fetch_PC; [exact Hcc|apply (i_sess _ Hx)]. }
-    set (qs := map (drain_req cin cout fe (x_sess x)) (x_sess x)) in *.
+      apply Hn; [exact Hh|]. apply fetch_PC; [apply src_PC; exact Hcs|apply (i_sess _ Hx)]. }
+    set (qs := map (drain_req cs fe (x_sess x)) (x_sess x)) in *.
     destruct ((g =? 1) && negb (match qs with [] => true | _ => false end)).
     - cbn. destruct Hx as [? ? ? ? ? ?]. constructor; cbn; auto. apply Forall_app. split; [assumption|].
       apply Forall_map. eapply Forall_impl; [|exact HQ]. intros q Hq. apply HQE. exact Hq.
@@ -306,9 +313,9 @@ Section StateInv.
                           PS (mkS id idn false 0 0 0) /\ PQ (mkQ ST_START id idn 0 0 0)
     | Stop id cause cin cout _ _ _ => PC cin cout /\ forall se0 a b, PS se0 -> PC a b -> s_id se0 = id ->
          PS (mkS id (s_ident se0) true cause (s_lin se0) (s_lout se0)) /\ PQ (mkQ ST_STOP id (s_ident se0) a b cause)
-    | InterimTick cin cout _ _ _ _ => PC cin cout /\ forall h a b, PS h -> PC a b ->
+    | InterimTick cs _ _ _ _ => Forall (fun p => PC (fst (snd p)) (snd (snd p))) cs /\ forall h a b, PS h -> PC a b ->
          PQ (mkQ ST_INTERIM (s_id h) (s_ident h) a b 0) /\ PS (mkS (s_id h) (s_ident h) (s_pend h) (s_cause h) a b)
-    | GracefulStop cin cout _ _ _ _ => PC cin cout /\ forall h a b, PS h -> PC a b ->
+    | GracefulStop cs _ _ _ _ => Forall (fun p => PC (fst (snd p)) (snd (snd p))) cs /\ forall h a b, PS h -> PC a b ->
          PQ (mkQ ST_STOP (s_id h) (s_ident h) a b CAUSE_NAS_REBOOT)
     | Restart _ _ _ => forall f, PS f ->
          PQ (mkQ ST_STOP (s_id f) (s_ident f) (s_lin f) (s_lout f) (if s_cause f =? 0 then CAUSE_NAS_REBOOT else s_cause f))
@@ -361,6 +368,13 @@ Qed.
 Lemma in_ctr_hd a b l : in_ctr a b ((a, b) :: l) = true.
 Proof. unfold in_ctr; cbn. rewrite !N.eqb_refl. reflexivity. Qed.
 
+Lemma in_ctr_app_r a b l1 l2 : in_ctr a b l2 = true -> in_ctr a b (l1 ++ l2) = true.
+Proof. unfold in_ctr. rewrite existsb_app. intros ->. apply orb_true_r. Qed.
+Lemma in_ctr_app_l a b l1 l2 : in_ctr a b l1 = true -> in_ctr a b (l1 ++ l2) = true.
+Proof. unfold in_ctr. rewrite existsb_app. intros ->. reflexivity. Qed.
+Lemma in_ctr_in a b l : In (a, b) l -> in_ctr a b l = true.
+Proof. intros H. unfold in_ctr. apply existsb_exists. exists (a, b). split; [exact H|]. cbn. rewrite !N.eqb_refl. reflexivity. Qed.
+
 Lemma ident_eqb_eq a b : ident_eqb a b = true -> a = b.
 Proof.
   destruct a as [[a1 a2] a3], b as [[b1 b2] b3]; cbn. rewrite !andb_true_iff, !N.eqb_eq. intros [[-> ->] ->]. reflexivity.
@@ -401,7 +415,7 @@ Proof. unfold cnt. cbn. destruct (s =? t); cbn; lia. Qed.
 
 Lemma pre_regs_ok ss o r : regs_ok ss -> regs_ok (pre ss o r).
 Proof.
-  intros [Hz Hl]. destruct o; cbn; try (split; [try apply in_ctr_cons; exact Hz|exact Hl]).
+  intros [Hz Hl]. destruct o; cbn; try (split; [try apply in_ctr_cons; try apply in_ctr_app_r; exact Hz|exact Hl]).
   destruct (ran r); [|split; assumption]. split; [exact Hz|]. cbn. intros s0 i. unfold in_reg. cbn.
   rewrite orb_true_iff. intros [H|H].
   - apply andb_true_iff in H. destruct H as [H _]. apply N.eqb_eq in H. subst. apply cnt_cons_pos.
@@ -411,7 +425,7 @@ Qed.
 Lemma pre_mono_reg ss o r s i : in_reg s i (ss_reg ss) = true -> in_reg s i (ss_reg (pre ss o r)) = true.
 Proof. intros H. destruct o; cbn [pre ss_reg]; auto; destruct (ran r); cbn [ss_reg]; auto using in_reg_cons. Qed.
 Lemma pre_mono_ctr ss o r a b : in_ctr a b (ss_ctr ss) = true -> in_ctr a b (ss_ctr (pre ss o r)) = true.
-Proof. intros H. destruct o; cbn [pre ss_ctr]; auto using in_ctr_cons; destruct (ran r); cbn [ss_ctr]; auto. Qed.
+Proof. intros H. destruct o; cbn [pre ss_ctr]; auto using in_ctr_cons, in_ctr_app_r; destruct (ran r); cbn [ss_ctr]; auto. Qed.
 
 Lemma SI_mono ss o r s :
   SI (PSb (ss_reg ss) (ss_ctr ss)) (PQb (ss_reg ss) (ss_ctr ss)) s ->
@@ -440,6 +454,12 @@ Qed.
 
 Definition PCb (ctr : list (N * N)) (a b : N) : Prop := in_ctr a b ctr = true.
 
+Lemma cs_PCb (cs : list (N * (N * N))) l : Forall (fun p => PCb (map snd cs ++ l) (fst (snd p)) (snd (snd p))) cs.
+Proof.
+  apply Forall_forall. intros [k [a b]] Hin. cbn. unfold PCb. apply in_ctr_app_l, in_ctr_in.
+  change (a, b) with (snd (k, (a, b))). apply in_map. exact Hin.
+Qed.
+
 Lemma opcond_b ss s o :
   let r := snd (fst (step s o)) in
   SI (PSb (ss_reg ss) (ss_ctr ss)) (PQb (ss_reg ss) (ss_ctr ss)) s -> regs_ok ss ->
@@ -451,9 +471,9 @@ Proof.
     split; split; cbn [s_id s_ident s_lin s_lout q_sid q_ident q_in q_out]; auto using in_reg_hd.
   - cbn [pre ss_reg ss_ctr]. split; [apply in_ctr_hd|]. intros se0 a b [H1 H2] Hab <-.
     split; split; cbn [s_id s_ident s_lin s_lout q_sid q_ident q_in q_out]; auto.
-  - cbn [pre ss_reg ss_ctr]. split; [apply in_ctr_hd|]. intros h a b [H1 H2] Hab.
+  - cbn [pre ss_reg ss_ctr]. split; [apply cs_PCb|]. intros h a b [H1 H2] Hab.
     split; split; cbn [s_id s_ident s_lin s_lout q_sid q_ident q_in q_out]; auto.
-  - cbn [pre ss_reg ss_ctr]. split; [apply in_ctr_hd|]. intros h a b [H1 H2] Hab.
+  - cbn [pre ss_reg ss_ctr]. split; [apply cs_PCb|]. intros h a b [H1 H2] Hab.
     split; cbn [s_id s_ident s_lin s_lout q_sid q_ident q_in q_out]; auto.
 Qed.
 
@@ -502,7 +522,7 @@ Qed.
 (* ---------------------------------------------------------------- clause 4, crash-free histories *)
 Definition quiet_op (o : op) : bool :=
   match o with
-  | Start _ _ _ c | Stop _ _ _ _ _ _ c | InterimTick _ _ _ _ _ c | ProcessQueued _ c | RetryTick _ _ c => c =? 0
+  | Start _ _ _ c | Stop _ _ _ _ _ _ c | InterimTick _ _ _ _ c | ProcessQueued _ c | RetryTick _ _ c => c =? 0
   | Final => true
   | _ => false
   end.
@@ -768,11 +788,11 @@ Proof.
 Qed.
 
 (* ---- the loops ---- *)
-Lemma interim_one_MX maxr ss0 cin cout fe dn se x : MX maxr ss0 x ->
-  exists y, interim_one cin cout fe dn se x = inl y /\ MX maxr ss0 y.
+Lemma interim_one_MX maxr ss0 cs fe dn se x : MX maxr ss0 x ->
+  exists y, interim_one cs fe dn se x = inl y /\ MX maxr ss0 y.
 Proof.
   intros Hx. unfold interim_one.
-  set (fc := fetch_ctr fe (s_id se) cin cout (x_sess x)).
+  set (fc := fetch_ctr fe (s_id se) _ _ (x_sess x)).
   set (q := mkQ ST_INTERIM (s_id se) (s_ident se) (fst fc) (snd fc) 0).
   assert (H1 : MX maxr ss0 (send q (acked dn q) x)) by (apply MX_send_nonstop; [discriminate|exact Hx]).
   match goal with |- exists y, ctick ?z = inl y /\ _ => assert (H2 : MX maxr ss0 z) end.
@@ -889,8 +909,8 @@ Proof.
     eexists. split; [reflexivity|]. split; cbn; auto.
 Qed.
 
-Lemma do_interim_cf maxr ss0 cin cout fe dn order x : MX maxr ss0 x ->
-  exists y, do_interim cin cout fe dn order x = inl y /\ MX maxr ss0 y.
+Lemma do_interim_cf maxr ss0 cs fe dn order x : MX maxr ss0 x ->
+  exists y, do_interim cs fe dn order x = inl y /\ MX maxr ss0 y.
 Proof. intros Hx. unfold do_interim. apply fold_m_MX; [|exact Hx]. intros a y Hy. apply interim_one_MX. exact Hy. Qed.
 
 Lemma do_queue_cf maxr ss0 dn x : MX maxr ss0 x ->
@@ -963,7 +983,7 @@ Proof.
   apply RX_bind; [apply RX_ctick; exact H|]. intros y Hy.
   apply RX_bind; [apply RX_ctick; rewrite ret_send; exact Hy|]. intros z Hz. apply RX_ctick. rewrite ret_mark. exact Hz.
 Qed.
-Lemma RX_do_interim cin cout fe dn order x : x_ret x <= 1 -> RX (do_interim cin cout fe dn order x).
+Lemma RX_do_interim cs fe dn order x : x_ret x <= 1 -> RX (do_interim cs fe dn order x).
 Proof.
   intros H. unfold do_interim. apply RX_fold_m; [|exact H]. intros a y Hy. unfold interim_one. apply RX_ctick.
   destruct (acked dn _); cbn; rewrite ?ret_send; exact Hy.
@@ -984,7 +1004,7 @@ Proof. destruct (pre_counts ss o r) as (E1 & E2 & E3 & _). apply M_same; auto. Q
 
 (* an op that ran to completion (inl y), seen from the state level *)
 Lemma leave_cf s ss o y :
-  (match o with Stop _ _ _ _ _ _ _ | GracefulStop _ _ _ _ _ _ => False | _ => True end) ->
+  (match o with Stop _ _ _ _ _ _ _ | GracefulStop _ _ _ _ _ => False | _ => True end) ->
   st_alive s = true -> ss_maxr ss = st_maxr s -> x_ret y <= 1 ->
   MX (st_maxr s) (pre ss o (snd (fst (leave s false (inl y))))) y ->
   JS (fst (fst (leave s false (inl y)))) (supd ss o (snd (fst (leave s false (inl y))))).
@@ -1043,10 +1063,10 @@ Proof.
         rewrite E4. reflexivity.
   - (* InterimTick *)
     split; [|apply Hok; exact I]. cbn [step]. rewrite Ea.
-    destruct (do_interim_cf (st_maxr s) (pre ss (InterimTick cin cout fe dn order 0) (snd (fst (leave s false (do_interim cin cout fe dn order (enter s 0))))))
-                cin cout fe dn order (enter s 0)) as (y & Ey & Hy).
+    destruct (do_interim_cf (st_maxr s) (pre ss (InterimTick cs fe dn order 0) (snd (fst (leave s false (do_interim cs fe dn order (enter s 0))))))
+                cs fe dn order (enter s 0)) as (y & Ey & Hy).
     { split; [apply M_pre; exact Hm|reflexivity]. }
-    pose proof (RX_do_interim cin cout fe dn order (enter s 0)) as Hr. rewrite Ey in *. apply leave_cf; auto. apply Hr. cbn. lia.
+    pose proof (RX_do_interim cs fe dn order (enter s 0)) as Hr. rewrite Ey in *. apply leave_cf; auto. apply Hr. cbn. lia.
   - (* ProcessQueued *)
     split; [|apply Hok; exact I]. cbn [step]. rewrite Ea.
     destruct (do_queue_cf (st_maxr s) (pre ss (ProcessQueued dn 0) (snd (fst (leave s false (do_queue (st_maxr s) dn (enter s 0))))))
@@ -1089,7 +1109,7 @@ Definition I1 : ident := (1, 2, 3).
 (* (1) the Start fails and is queued; the Stop is sent directly and is accepted first *)
 Definition w1 : list op := [Start 1 I1 [(1, 1)] 0; Stop 1 1 7 9 [] [] 0; ProcessQueued [] 0].
 (* (3) graceful drain leaves sessions/1.json: the restart sends the acknowledged Stop again *)
-Definition w3a : list op := [Start 1 I1 [] 0; GracefulStop 5 6 [] [] [] 0; Restart [] [] 0].
+Definition w3a : list op := [Start 1 I1 [] 0; GracefulStop [(1, (5, 6))] [] [] [] 0; Restart [] [] 0].
 (* (3) the record is in the channel and in the retry map: delivered by the scan, sent again from the channel *)
 Definition w3b : list op := [Start 1 I1 [] 0; Stop 1 1 1 2 [] [(1, 2)] 0; RetryTick [] [] 0; ProcessQueued [] 0].
 (* (4) Stop fails -> queued in memory only, file removed; crash => lost *)
@@ -1098,7 +1118,7 @@ Definition w4a : list op := [Start 1 I1 [] 0; Stop 1 1 1 2 [] [(1, 2)] 0; Crash;
 Definition w4b : list op := [Start 1 I1 [] 1; Final].
 (* (4) pending.json (durable after the graceful stop) is deleted on load; crash => lost *)
 Definition w4c : list op :=
-  [Start 1 I1 [] 0; Stop 1 1 1 2 [] [(1, 2)] 0; GracefulStop 0 0 [] [] [] 0; Final; Restart [(1, 2)] [] 0; Crash; Final].
+  [Start 1 I1 [] 0; Stop 1 1 1 2 [] [(1, 2)] 0; GracefulStop [] [] [] [] 0; Final; Restart [(1, 2)] [] 0; Crash; Final].
 (* (4) the Stop recovered from the session file fails: queued in memory, file removed; crash => lost *)
 Definition w4d : list op := [Start 1 I1 [] 0; Crash; Restart [(1, 2)] [] 0; Crash; Final].
 
